@@ -155,6 +155,21 @@ def r2_completion_time(ctx: Context) -> None:
                     ok = True
     ctx.check(ok, "C03.R2", "Worker.step|a task completes iff task.step(t, dt) is true", loc(wst),
               "for task in placed: if task.step(t, dt): completed.append(task)", "Worker.step reports completions that Task.step did not signal")
+    # every RUNNING task of the worker is stepped: no early exit, and only non-running tasks are skipped
+    tl = [n for n in ast.walk(wst) if isinstance(n, ast.For) and norm(n.iter) in ("self._placed_tasks", "self._placed_tasks.keys()", "list(self._placed_tasks)")]
+    ctx.floor("C03.R2", "loop over the placed tasks in Worker.step", len(tl), 1)
+    tv = norm(tl[0].target)
+    early = [x for x in ast.walk(tl[0]) if isinstance(x, (ast.Break, ast.Return))]
+    ctx.check(not early, "C03.R2", "Worker.step|task loop has no early exit", loc(early[0]) if early else loc(tl[0]), "every placed task is visited",
+              "the loop over the placed tasks can stop early: running tasks after that point are not stepped and finish late")
+    not_running = lin.formula(ast.parse(f"{tv}.state != TaskState.RUNNING", mode="eval").body)
+    for c in [x for x in ast.walk(tl[0]) if isinstance(x, ast.Continue)]:
+        cn = g2.node_of(c)
+        ok = any(t.kind == "test" and ((g2.edge_dominates(t, "T", cn) and lin.entails(lin.formula(t.ast), not_running))
+                                       or (g2.edge_dominates(t, "F", cn) and lin.entails(lin.f_not(lin.formula(t.ast)), not_running)))
+                 for t in g2.nodes)
+        ctx.check(ok, "C03.R2", "Worker.step|only tasks that are not RUNNING are skipped", loc(c), "continue under `state != RUNNING`",
+                  "a RUNNING task can be skipped by the stepping loop: it holds its resources longer than its runtime")
     rets = [r for r in ast.walk(wst) if isinstance(r, ast.Return)]
     ctx.check(all(norm(r.value) == "completed_tasks" for r in rets) and bool(rets), "C03.R2", "Worker.step|returns the completed list", loc(wst), "ok", "returns something else")
 
